@@ -309,3 +309,75 @@ def second_process(pi: int, s1: int, s2: int):
             check("same-results", first["results"] == second["results"], (first["results"], second["results"]))
         finally:
             shutil.rmtree(root, ignore_errors=True)
+
+
+# ------------------------------------------------------------------------------------------------
+# real second process with a different (but equivalent) definition / import / insertion order
+# ------------------------------------------------------------------------------------------------
+
+ORDER_PROGRAMS = [
+    # (name, head, permutable chunks, tail, roots)
+    ("factory-made-helpers-sharing-one-code-object",
+     "def make(d):\n    def helper(x, k=d):\n        return x + k\n    return helper\n\nh1 = make(1)\nh2 = make(2)\n",
+     ["@m.memento_function\ndef f1(x=1):\n    _trace.append('f1')\n    return h1(x)\n",
+      "@m.memento_function\ndef f2(x=1):\n    _trace.append('f2')\n    return h2(x)\n"],
+     "", ["f1", "f2"]),
+    ("dict-global-filled-in-import-order",
+     "REG = {}\n",
+     ["REG['alpha'] = 1\n", "REG['beta'] = 2\n", "REG['gamma'] = 3\n"],
+     "@m.memento_function\ndef f(x=1):\n    _trace.append('f')\n    return REG['alpha'] + REG['gamma'] + x\n", ["f"]),
+    ("dict-global-filled-from-a-set",
+     "REG = {}\nfor _n in {'alpha', 'beta', 'gamma', 'delta', 'epsilon', 'zeta'}:\n    REG[_n] = len(_n)\ndel _n\n",
+     ["X = 1\n", "Y = 2\n"],
+     "@m.memento_function\ndef f(x=1):\n    _trace.append('f')\n    return REG['alpha'] + X + Y + x\n", ["f"]),
+    ("nested-dict-and-list-globals",
+     "CFG = {}\n",
+     ["CFG['b'] = {'y': 1, 'x': [1, 2]}\n", "CFG['a'] = {'q': None, 'p': 'v'}\n"],
+     "@m.memento_function\ndef g(x=1):\n    _trace.append('g')\n    return len(CFG) + x\n\n"
+     "@m.memento_function\ndef f(x=1):\n    _trace.append('f')\n    return g(x) + len(CFG['a'])\n", ["f", "g"]),
+]
+
+
+@obligation(
+    "C03.second_process_orders",
+    covers=("permuted-order", "different-seeds"),
+    split={"pi": list(range(len(ORDER_PROGRAMS))), "rev_roots": [False, True]},
+    bounds="%d programs whose equivalent texts differ only in the order of independent definitions / dict insertions (helpers made by one "
+           "factory with different defaults; dict globals filled in import order, from a set, nested) run in REAL child interpreters: first "
+           "process canonical order, second process any permutation of the chunks and of the root query order, PYTHONHASHSEED pairs (0,0), (0,1), (1,12345): "
+           "identical versions, the second process executes no body" % len(ORDER_PROGRAMS),
+    variables="choice: program, chunk permutation, root order, seed pair",
+    budget_s={"quick": 170, "thorough": 600},
+    choice_vars=4,
+)
+def second_process_orders(pi: int, perm: int, rev_roots: bool, sp: int):
+    name, head, chunks, tail, roots = ORDER_PROGRAMS[pi]
+    perms = list(itertools.permutations(range(len(chunks))))
+    perm = pick(perm, len(perms))
+    sp = pick(sp, 3)
+    s1, s2 = [(0, 0), (0, 1), (1, 2)][sp]
+    rr = True if rev_roots else False
+    seeds = ["0", "1", "12345"]
+    with concrete_region():
+        import shutil
+        import tempfile
+
+        root = tempfile.mkdtemp(prefix="vp-c03o-", dir="/dev/shm")
+        try:
+            sp1, sp2 = os.path.join(root, "prog1.py"), os.path.join(root, "prog2.py")
+            with open(sp1, "w") as f:
+                f.write(head + "".join(chunks) + tail)
+            with open(sp2, "w") as f:
+                f.write(head + "".join(chunks[i] for i in perms[perm]) + tail)
+            first = run_child(root, sp1, roots, seeds[s1])
+            second = run_child(root, sp2, list(reversed(roots)) if rr else roots, seeds[s2])
+            if perm or rr:
+                cover("permuted-order")
+            if s1 != s2:
+                cover("different-seeds")
+            check("first-process-computes", first["bodies"] >= 1, first)
+            check("same-versions-in-both-processes", first["versions"] == second["versions"], (first["versions"], second["versions"]))
+            check("second-process-executes-no-body", second["bodies"] == 0, second)
+            check("same-results", first["results"] == second["results"], (first["results"], second["results"]))
+        finally:
+            shutil.rmtree(root, ignore_errors=True)
